@@ -108,3 +108,13 @@ def cancel_all_timers():
             c.cancel()
         except Exception:
             pass
+
+
+def cancel_all_timers_keep_immediate():
+    """Cancel delayed calls that lie in the future; zero-delay calls (the eventual-send queue) are left to be drained."""
+    for c in list(R.getDelayedCalls()):
+        if c.getTime() > R.seconds():
+            try:
+                c.cancel()
+            except Exception:
+                pass
